@@ -98,6 +98,30 @@ one_config(size_t size, uint32_t place, int ck, int with_aux, size_t auxsize, vh
         ncase++;
     }
 
+    /* partial stores onto a medium whose checksum does not match its data (it was just filled with ff): every
+     * successful store, also one of no octets at all, leaves a medium that validates */
+    {
+        memset(model, 0xFF, size);
+        const size_t wins[][2] = { { 0, 0 }, { size, 0 }, { size / 2, 0 }, { 0, 1 }, { size - 1, 1 } };
+        for (size_t w = 0; w < sizeof wins / sizeof wins[0]; w++) {
+            /* back to the unsealed state (checksum field ff as well) unless the reference happens to agree */
+            memset(ps_medium, 0xFF, cks + size);
+            memset(model, 0xFF, size);
+            unsigned char one = (unsigned char)(0x40 + w);
+            unsigned char *psrc = vh_arena_copy(&one, 1);
+            ps_log_reset();
+            PersistentAccess prc = persistent_store_part(&st, psrc, wins[w][0], wins[w][1]);
+            snprintf(ctx, sizeof ctx, "size=%zu place=%u auxsize=%zu store_part(off=%zu,n=%zu) on a medium that was only reset", size,
+                     place, auxsize, wins[w][0], wins[w][1]);
+            if (prc != PERSISTENT_ACCESS_SUCCESS)
+                vh_fail("store-part-rc", key, "%s: rc=%d", ctx, prc);
+            if (wins[w][1])
+                model[wins[w][0]] = one;
+            expect_valid_state(&st, ck, size, model, key, ctx);
+            VH_COUNT("partial store onto an unsealed medium");
+            ncase++;
+        }
+    }
     /* full store */
     img(model, size, (unsigned)(size + place));
     unsigned char *src = vh_arena_copy(model, size);
@@ -637,6 +661,7 @@ harness_run(void)
         vh_unit("remarkable", i, u_remarkable, NULL);
     vh_require("image whose checksum is zero stored and validated");
     vh_require("image whose checksum is all-ones stored and validated");
+    vh_require("partial store onto an unsealed medium");
     vh_require("image stored over a different image with the same checksum (default-sum16)");
     vh_require("image stored over a different image with the same checksum (crc16-arc)");
     vh_require("large data size 65536");
